@@ -15,7 +15,7 @@ RULE = (
     "sample() call; distinct = its (kind,b,t,n,seed,n_chains,chain) tuple; non-trivial = t>1 or b>0 or n_chains>1"
 )
 ASSUMPTIONS = ["non-overlap of streams is decided on the first 4096 64-bit outputs of each stream (no shared value, no shared window)"]
-REQUIRED = {"recorded_samples_rechecked": {"quick": 150, "thorough": 900}, "cli_schedules_checked": {"quick": 24, "thorough": 300}, "cli_schedules_with_zero_burnin": {"quick": 12, "thorough": 150}, "captures_at_log_level_DEBUG": {"quick": 30, "thorough": 150}, "schedules_checked": {"quick": 500, "thorough": 2000}, "stream_pairs_checked": {"quick": 200, "thorough": 2000}, "vi_checked": {"quick": 40, "thorough": 250}}
+REQUIRED = {"resets_compared_with_untouched_model": {"quick": 40, "thorough": 250}, "recorded_samples_rechecked": {"quick": 150, "thorough": 900}, "cli_schedules_checked": {"quick": 24, "thorough": 300}, "cli_schedules_with_zero_burnin": {"quick": 12, "thorough": 150}, "captures_at_log_level_DEBUG": {"quick": 30, "thorough": 150}, "schedules_checked": {"quick": 500, "thorough": 2000}, "stream_pairs_checked": {"quick": 200, "thorough": 2000}, "vi_checked": {"quick": 40, "thorough": 250}}
 GRID = {"quick": (12, 5, 8), "thorough": (24, 7, 12)}
 
 
@@ -149,9 +149,25 @@ def run_shard(rec, tier, seed, shard, nshards):
     for _ in range(n_real):
         kw = gen.realistic_screen_kwargs(rng, n_rows=(4, 14), observed="all", p_double_control=0.0)
         screen = Screen(**kw)
-        model = SparseDrugCombo(experiment_space=ExperimentSpace.from_screen(screen), n_embedding_dimensions=int(rng.integers(1, 4)))
+        D_real = int(rng.integers(1, 4))
+        mkw = {k_: bool(rng.random() < 0.5) for k_ in ("mult_gamma_proc", "local_shrinkage", "fake_intercept", "individual_eff")} if rng.random() < 0.5 else {}
+        model = SparseDrugCombo(experiment_space=ExperimentSpace.from_screen(screen), n_embedding_dimensions=D_real, **mkw)
         model.add_observations(screen.subset_observed())
         b, t, n = int(rng.integers(0, 5)), int(rng.integers(1, 4)), int(rng.integers(1, 5))
+        # "sampling resets the model": whatever the model went through before - steps, an earlier sampling run with
+        # another seed - the recorded samples are those of a model that was never touched
+        past = str(rng.choice(["fresh", "stepped", "sampled-before"]))
+        try:
+            if past == "stepped":
+                model.set_rng(np.random.default_rng(int(rng.integers(0, 2**31))))
+                for _ in range(int(rng.integers(1, 6))):
+                    model.step()
+            elif past == "sampled-before":
+                sampling.sample(model, ThetaHolder(n_thetas=2), seed=int(rng.integers(0, 1000)) + 5000, n_chains=1, chain_index=0, n_burnin=1, thin=1)
+        except Exception as e:
+            rec.did_not_return("real-model-past", e)
+            continue
+        rec.count("real_model_past_" + past)
         log = []
         cnt = {"steps": 0}
         tags = []
@@ -183,13 +199,22 @@ def run_shard(rec, tier, seed, shard, nshards):
         holder = ThetaHolder(n_thetas=n)
         rec.case(("real", b, t, n, screen.size))
         w = {"b": b, "t": t, "n": n, "model": "SparseDrugCombo"}
+        sd_real, ch_real = int(rng.integers(0, 1000)), int(rng.integers(0, 2))
+        w = dict(w, switches=mkw, model_past=past)
         try:
-            res = sampling.sample(model, holder, seed=int(rng.integers(0, 1000)), n_chains=2, chain_index=int(rng.integers(0, 2)), n_burnin=b, thin=t)
+            res = sampling.sample(model, holder, seed=sd_real, n_chains=2, chain_index=ch_real, n_burnin=b, thin=t)
         except Exception as e:
             rec.violation("C17/schedule/raises", "sample raised %r on the real model" % (e,), w)
             continue
         rec.count("real_model_schedules")
         check_schedule("SparseDrugCombo", log, tags, b, t, n, res, w)
+        if past != "fresh":
+            untouched = SparseDrugCombo(experiment_space=ExperimentSpace.from_screen(screen), n_embedding_dimensions=D_real, **mkw)
+            untouched.add_observations(screen.subset_observed())
+            ref_res = sampling.sample(untouched, ThetaHolder(n_thetas=n), seed=sd_real, n_chains=2, chain_index=ch_real, n_burnin=b, thin=t)
+            rec.count("resets_compared_with_untouched_model")
+            differ = [i for i in range(n) if theta_bytes(ref_res.thetas[i]) != snaps[i]]
+            rec.check(not differ, "C17/schedule/reset-incomplete", lambda: "a model that was %s before records other samples %r than an untouched model with the same data, switches %r and (seed, chains, chain) - the reset at the start of sampling left something behind" % (past, differ, mkw), w)
         # "records the state after steps b+t, b+2t, ...": a recorded sample is a snapshot; the steps taken after it
         # was recorded must not reach into it
         later = [i for i in range(min(len(snaps), len(res.thetas))) if theta_bytes(res.thetas[i]) != snaps[i]]
